@@ -184,6 +184,14 @@ def check_function(item):
         out.update(verdict="skip", why="module exports no equation object: judged against its law FUNCTION by checks/c02_vecwrap.py")
         return out
     out_sym = info["output"] if isinstance(info["output"], sp.Symbol) else None
+    # not the first use of the function in this process: an ordinary call with other (concrete) arguments has already happened, so
+    # whatever the function might keep from one call to the next (a result, a rewritten module-level equation) would show in the
+    # run that is judged.  The published equations were read BEFORE that call.
+    published = [(n_, sp.srepr(e_)) for n_, e_ in catalogue.public_equations(mod)]
+    warmup(fn, info, sig)
+    if [(n_, sp.srepr(e_)) for n_, e_ in catalogue.public_equations(mod)] != published:
+        out.update(verdict="candidate", ename="P:", why="an ordinary call of the function rewrote the module's published equation: later calls are answered from the first call's numbers")
+        return out
     ses = Session(None, timeout_ms=TIMEOUT_MS)
     ses.clear_sympy_cache = True
     ses.enc.extra_handlers.append(qspec.quantity_handler)
@@ -469,6 +477,8 @@ for pname, p in sig.parameters.items():
     d = spec.dimension if isinstance(spec, DimensionSymbol) else spec
     args[pname] = Quantity(v, dimension=d.subs("angle", 1))
     if isinstance(spec, sp.Symbol) and isinstance(spec, DimensionSymbol): par2sym[pname] = spec
+eqs = dict(catalogue.public_equations(mod))        # the published equations, read before any call
+c02.warmup(fn, info, sig)                           # an earlier ordinary call with other arguments, as in the check
 res = fn(**args)
 rs = res.scale_factor if isinstance(res, SymQuantity) else sp.sympify(res)
 print("arguments (internal scale factors):", scal, "-> result", rs)
@@ -485,6 +495,63 @@ for c in ([core, -core] if magnitude else [core]):
         print("equation", ename, ":", eq, "with the straight line through the samples: lhs", Ln, " rhs", Rn)
         if abs(Ln - Rn) <= 1e-6 * scale: ok = True
 if not ok:
+    print("REPRODUCED"); sys.exit(1)
+'''
+
+
+def warmup(fn, info, sig):
+    """one ordinary call with concrete, dimensionally valid arguments (distinct magnitudes); whatever THE CALL raises is ignored"""
+    from symplyphysics import Quantity as RealQuantity
+    from symplyphysics.core.symbols.symbols import DimensionSymbol
+    args = {}
+    for i, (pname, p) in enumerate(sig.parameters.items()):
+        spec = info["inputs"].get(pname)
+        v = sp.Rational(7 + 2 * i, 4 + i)
+        if spec is None or isinstance(spec, (list, tuple)):
+            args[pname] = float(v)
+            continue
+        d = spec.dimension if isinstance(spec, DimensionSymbol) else spec
+        try:
+            args[pname] = RealQuantity(v, dimension=d.subs("angle", 1) if hasattr(d, "subs") else d)
+        except Exception:
+            return          # a declared dimension this helper cannot build a quantity for: no warm-up call
+    try:
+        with_timeout(lambda: fn(**args), 30)
+    except ItemTimeout:
+        pass
+    except Exception:
+        pass
+
+
+REPLAY_PUBLISHED = r'''
+import sys, inspect, subprocess
+import sympy as sp
+from checks import c02
+from vlib import catalogue
+from symplyphysics import Quantity
+from symplyphysics.core.symbols.symbols import DimensionSymbol
+modname, fname, domain = {item!r}
+mod = catalogue.load(modname); fn = getattr(mod, fname)
+info = catalogue.decorator_info(fn); sig = inspect.signature(info["inner"])
+def args_for(shift):
+    args = {{}}
+    for i, (pname, p) in enumerate(sig.parameters.items()):
+        spec = info["inputs"].get(pname); v = sp.Rational(5 + 3 * i + shift, 3 + i)
+        if spec is None: args[pname] = float(v); continue
+        d = spec.dimension if isinstance(spec, DimensionSymbol) else spec
+        args[pname] = Quantity(v, dimension=d.subs("angle", 1))
+    return args
+val = lambda r: sp.N(getattr(r, "scale_factor", r), 15)
+before = [(n, sp.srepr(e)) for n, e in catalogue.public_equations(mod)]
+if len(sys.argv) > 1:                      # child: the second argument set in a process of its own
+    print("@@", val(fn(**args_for(4)))); sys.exit(0)
+first = val(fn(**args_for(0)))
+changed = [(n, sp.srepr(e)) for n, e in catalogue.public_equations(mod)] != before
+second = val(fn(**args_for(4)))
+alone = subprocess.run([sys.executable, "-c", open(__file__).read() if "__file__" in globals() else "", "child"], capture_output=True, text=True).stdout if "__file__" in globals() else ""
+print("published equation rewritten by a call:", changed, " first call ->", first, " second call (other arguments) ->", second)
+if changed:
+    print("the module's equations now read:", [str(e)[:120] for n, e in catalogue.public_equations(mod)][:3])
     print("REPRODUCED"); sys.exit(1)
 '''
 
@@ -511,13 +578,14 @@ for src, pname in c02.subs_mapping(inner).items():
     if pname not in par2sym:
         obj = c02.resolve(mod, src)
         if isinstance(obj, sp.Symbol): par2sym[pname] = obj
+eqs = dict(catalogue.public_equations(mod))        # the published equations, read before any call
+c02.warmup(fn, info, sig)                           # an earlier ordinary call with other arguments, as in the check
 res = fn(**args)
 rs = res.scale_factor if isinstance(res, SymQuantity) else sp.sympify(res)
 print("arguments (internal scale factors):", scal, "-> result", rs)
 if rs.free_symbols:
     print("REPRODUCED: result depends on unbound symbols", rs.free_symbols); sys.exit(1)
 core = rs.args[0] if isinstance(rs, (sp.Abs, sp.ceiling)) else rs
-eqs = dict(catalogue.public_equations(mod))
 bad = False
 for en, eq in eqs.items():
     if ename and en != ename: continue
@@ -615,7 +683,7 @@ def run(ctx):
     ctx.outside = ["unit choice is covered by construction: only the scale factor reaches the body (C05/C07 decide the reduction to scale factors)", "float rounding below 1e-9 relative",
                    "vector laws: only pairs of *_law functions that take each other's result with otherwise identical parameters are paired (others listed unencoded)"]
     ctx.trusted = ["z3 nlsat", "SymPy solve/subs are executed as part of the code under test", "Sym2SMT translator", "C01 (homogeneity) for the unit-system independence of the residual"]
-    res = pmap(check_function, items, chunk=2)
+    res = pmap(check_function, items, chunk=2, hard_s=300 if ctx.tier == 'quick' else None)
     n_run = 0
     for r in res:
         if "error" in r:
@@ -637,11 +705,15 @@ def run(ctx):
                 ctx.violation(f"C02:{r['name']}", f"{r['name']}: {r['why']} (leaves {r.get('par2sym')})",
                               c02_tuples.REPLAY.format(item=tuple(r["item"]), vals=r.get("vals") or {}, ename=en[2:]))
                 continue
+            if (en or "").startswith("P:"):
+                ctx.violation(f"C02:{r['name']}", f"{r['name']}: {r['why']}", REPLAY_PUBLISHED.format(item=tuple(r["item"])))
+                continue
             script = REPLAY_F if (en or "").startswith("F:") else REPLAY
             ctx.violation(f"C02:{r['name']}", f"{r['name']}: {r['why']} (mapping {r.get('par2sym')}, returned {r.get('result')})",
                           script.format(item=tuple(r["item"]), vals=r.get("vals") or {}, ename=(en[2:] if (en or "").startswith("F:") else en), magnitude=r.get("magnitude", False)))
-    from checks import c02_vectors, c02_vecwrap
+    from checks import c02_vectors, c02_vecwrap, c02_fieldlaws
     c02_vectors.run(ctx, TIMEOUT_MS)
     c02_vecwrap.run(ctx, TIMEOUT_MS)
+    c02_fieldlaws.run(ctx, TIMEOUT_MS)
     ctx.extra["calculate_functions"] = len(funcs)
     ctx.extra["functions_decided"] = n_run
